@@ -17,6 +17,12 @@ import sys
 import time
 import traceback
 
+if os.environ.get("PYTHONHASHSEED") != "0" and __name__ == "__main__":
+    # iteration order of sets of strings feeds the order of assertions, which the solver's heuristics are sensitive to: fixed, so that
+    # the same tree always gives the same queries
+    os.environ["PYTHONHASHSEED"] = "0"
+    os.execv(sys.executable, [sys.executable] + sys.argv)
+
 ROOT = os.path.dirname(os.path.dirname(os.path.abspath(__file__)))
 sys.path.insert(0, ROOT)
 
